@@ -114,9 +114,13 @@ def bounded(ctx, b):
         every = rng.choice([True, False])
         t0 = rng.choice([0, 0, 1, 40, 40, 1799, 107892])          # a program may start at timecode zero
 
-        def one(depth=depth, rows=rows, texts=texts, dbl=dbl, drop=drop, gaps=gaps, every=every, t0=t0):
+        lang = rng.choice(["en-US", "en-US", "de-DE"])
+
+        def one(depth=depth, rows=rows, texts=texts, dbl=dbl, drop=drop, gaps=gaps, every=every, t0=t0, lang=lang, i=i):
             doc = rollup_doc(rng, depth, rows, texts, dbl, drop, gaps, every, t0)
-            caps = _SHARED_READER.read(doc).get_captions("en-US")
+            if i % 7 == 3:
+                damage_shared_reader()
+            caps = _SHARED_READER.read(doc, lang=lang).get_captions(lang)
             ok, d = check_captions(caps, texts)
             if not ok:
                 return False, dict(d, doc=doc[:600])
@@ -138,12 +142,39 @@ def bounded(ctx, b):
         gaps = [rng.choice([0, 3, 30, 90]) for _ in range(k)]
         t0 = rng.choice([0, 0, 1, 40, 40, 1799, 107892])
 
-        def two(rowsets=rowsets, dbl=dbl, drop=drop, gaps=gaps, t0=t0):
+        lang = rng.choice(["en-US", "fr-FR", "de-DE"])
+
+        def two(rowsets=rowsets, dbl=dbl, drop=drop, gaps=gaps, t0=t0, lang=lang, i=i):
             doc = painton_doc(rng, rowsets, dbl, drop, gaps, t0)
-            caps = _SHARED_READER.read(doc).get_captions("en-US")
+            if i % 5 == 2:
+                damage_shared_reader()
+            caps = _SHARED_READER.read(doc, lang=lang).get_captions(lang)
             ok, d = check_captions(caps, [t for rows in rowsets for _, t in rows])
             return ok, (dict(d, doc=doc[:600]) if d else None)
         b.guard(("painton", i), two, sample={"mode": "paint-on", "rows": [[r for r, _ in rows] for rows in rowsets], "doubled": dbl, "drop": drop, "first_frame": t0})
+    # programs that change mode: paint-on / roll-up passages in every order of three
+    for order in itertools.product(["paint", "roll"], repeat=3):
+        for dbl in (False, True):
+            def mixed(order=order, dbl=dbl):
+                ctl = lambda w: [w, w] if dbl else [w]
+                lines, t, sent = [], 40, []
+                for pi, kind in enumerate(order):
+                    for j in range(2):
+                        text = f"{kind.upper()} {pi} ROW {j}"
+                        sent.append(text)
+                        if kind == "paint":
+                            ws = ctl(C.ctrl("RDC")) + ctl(C.pac(3 + 2 * j)) + C.text_words(text)
+                        else:
+                            ws = ctl(C.ctrl("RU3")) + ctl(C.ctrl("CR")) + ctl(C.pac(15)) + C.text_words(text)
+                        lines.append((C.timecode(t), ws))
+                        t += len(ws) + 45
+                last = order[-1]
+                lines.append((C.timecode(t), ctl(C.ctrl("RDC")) if last == "paint" else ctl(C.ctrl("CR"))))
+                doc = C.scc_document(lines)
+                caps = _SHARED_READER.read(doc).get_captions("en-US")
+                ok, d = check_captions(caps, sent)
+                return ok, (dict(d, doc=doc[:700]) if d else None)
+            b.guard(("mixed", order, dbl), mixed, sample={"passages": order, "doubled": dbl})
     # timecodes crossing an hour
     for drop in (True, False):
         def three(drop=drop):
@@ -177,6 +208,19 @@ def run(ctx):
               "SCCReader._translate_command is bounded-checked only (protocol-level conservation invariant)")
     ctx.assume("conservation is checked at the granularity of rows (whitespace-normalised), as the statement's 'text of "
                "each transmitted row kept together'")
+
+
+def damage_shared_reader():
+    """a read that fails half-way (damaged timecode after two good lines) on the shared reader: the next read must not
+    be affected by what the failed one left behind"""
+    from pycaption.exceptions import CaptionReadError
+    bad = C.scc_document([(C.timecode(40), [C.ctrl("RU2"), C.ctrl("CR"), C.pac(15)] + C.text_words("THIS FILE IS DAMAGED")),
+                          (C.timecode(140), [C.ctrl("RU2"), C.ctrl("CR"), C.pac(15)] + C.text_words("SECOND ROW")),
+                          ("00:00:0x;00", [C.ctrl("CR")])])
+    try:
+        _SHARED_READER.read(bad)
+    except Exception:
+        pass
 
 
 # one reader object for every stream of the run: what a read returns must depend on the stream only,
